@@ -1080,8 +1080,12 @@ def search(ctx, pending):
         return [{'sig': f['sig'], 'case': f['case'], 'detail': f['detail']} for f in same[:5]]
     rng = ctx.rng
     cases = []
+    allowed = {'slr': ('neg', 'T', 'mul', 'normalize', 'd2u', 'b2d', 'b2u', 'astype'),
+               'reg': ('neg', 'T', 'mul', 'normalize', 'd2u', 'b2d', 'b2u', 'astype'),
+               'con': ('neg', 'T', 'mul', 'normalize', 'astype'), 'pol': ('neg', 'T', 'mul'),
+               'nrm': ('neg', 'T', 'mul'), 'lap': ('neg', 'T', 'mul', 'astype')}
     for leaf in exhaustive_leaf_exprs():
-        for op in ('neg', 'T', 'mul', 'normalize', 'd2u', 'b2d', 'b2u', 'astype'):
+        for op in allowed[leaf[0]]:
             e = (op, leaf) if op not in ('mul', 'astype') else ((op, leaf, 2) if op == 'mul' else (op, leaf, 'float'))
             o, err = try_build(e)
             if err is None:
